@@ -354,9 +354,22 @@ def callback_qmetadata(ctx, nhist=40):
         async def execute_result_async(self, a, title=None):
             return a
 
+    class FileDS(DS):
+        "a dataset with value semantics: two handles on the same file are equal and hash alike (every stream derived from it is a copy of it)"
+
+        def __init__(self, item_type, name):
+            super().__init__(item_type)
+            self.name = name
+
+        def __eq__(self, other):
+            return isinstance(other, FileDS) and other.name == self.name
+
+        def __hash__(self):
+            return hash(("FileDS", self.name))
+
     for h in range(nhist):
         rnd = random.Random(ctx.seed * 911 + ctx.shard * 17 + h)
-        streams = [(DS(Evt), {}, "ds")]
+        streams = [(DS(Evt) if h % 2 else FileDS(Evt, "run2.root"), {}, "ds")]
         for step in range(rnd.randint(4, 12)):
             s_, model, how = rnd.choice(streams[-3:])
             k = rnd.random()
